@@ -1,4 +1,15 @@
-Check (C09_refuted_on_the_model : exists file cls, c09_run = Some (file, cls) /\ cls = [COk; COk; COk; COk] /\ check_C09 c09_builder c09_ops cls file = false).
-Check (C09_holds_when_starts_coincide_example : match build c09_builder [] with
-  | inl m0 => let '(m, rs) := run m0 c09_ops_aligned in check_C09 c09_builder c09_ops_aligned [COk; COk; COk; COk] (sink_of m) = true
-  | inr _ => False end).
+Open Scope N_scope.
+Check (C09_refuted_on_the_model : (exists file cls, c09_run = Some (file, cls) /\
+                   cls = [COk; COk; COk; COk] /\
+                   check_C09 c09_builder c09_ops cls file = false)%type).
+Check (C09_holds_when_starts_coincide_example : (match build c09_builder [] with
+  | inl m0 => let '(m, rs) := run m0 c09_ops_aligned in
+              check_C09 c09_builder c09_ops_aligned [COk; COk; COk; COk] (sink_of m) = true
+  | inr _ => False
+  end)%type).
+Check (C09_sync_preserved_when_starts_coincide : (forall b m0 ops m rs s,
+  build b [] = inl m0 -> run m0 ops = (m, rs) -> In (RStats s) rs ->
+  Forall op_payload_ok ops -> len (sink_of m) < 4294967296 ->
+  sumN (durations_of (asamples (m_writer m)) (w_alast_delta (m_writer m))) < 4294967296 ->
+  starts_aligned (accepted b ops (map class_of rs)) ->
+  check_C09 b ops (map class_of rs) (sink_of m) = true)%type).
